@@ -16,10 +16,11 @@ const loxERROR = 1
 const refLexErr = 250 // reference symbol for a lexer ERROR token in the input: matches nothing
 
 type c09Params struct {
-	fams  []family
-	L     int   // all strings up to this length over tokens + ERROR
-	Lpump int   // strings up to this length are pumped
-	Ks    []int // pump factors
+	fams   []family
+	L      int   // all strings up to this length over tokens + ERROR
+	Lpump  int   // strings up to this length are pumped
+	Ks     []int // pump factors
+	Hooked bool  // also run with @error actions calling recoverLookahead
 }
 
 func c09Families(quick bool) c09Params {
@@ -30,7 +31,7 @@ func c09Families(quick bool) c09Params {
 				{Name: "error-sugar", Space: gen.NewSpace(2, 2, 2, 2, true), Sugar: true, Limit: 2500},
 				{Name: "error3", Space: gen.NewSpace(3, 2, 2, 2, true), Limit: 300000},
 			},
-			L: 5, Lpump: 3, Ks: []int{8},
+			L: 5, Lpump: 3, Ks: []int{8}, Hooked: false,
 		}
 	}
 	return c09Params{
@@ -40,7 +41,7 @@ func c09Families(quick bool) c09Params {
 			{Name: "error3", Space: gen.NewSpace(3, 2, 2, 2, true), Limit: 12000000},
 			{Name: "error-sugar", Space: gen.NewSpace(2, 2, 2, 2, true), Sugar: true, Limit: 60000},
 		},
-		L: 7, Lpump: 4, Ks: []int{2, 8, 50},
+		L: 7, Lpump: 4, Ks: []int{2, 8, 50}, Hooked: true,
 	}
 }
 
@@ -242,6 +243,37 @@ func c09Explore(b *px.Built, r *px.Runner, fam string, idx int64, prm c09Params,
 			}
 		}
 	})
+	// Second pass: the user's @error actions call recoverLookahead the way the
+	// documentation suggests (re-injecting the token that ends the error
+	// production). Only termination and crash freedom are checked here: the
+	// consumed-symbols oracle does not apply when a token is consumed twice.
+	if prm.Hooked {
+		hook := func(p ctypes.Parser, n *ctypes.Node) {
+			if !b.ProdHasErr[n.Prod] || len(n.Kids) < 2 {
+				return
+			}
+			if tok, ok := n.Kids[len(n.Kids)-1].(ctypes.Token); ok && p.Qla() == -1 {
+				p.RecoverLookahead(tok.Type, tok)
+			}
+		}
+		forStrings(alphabet, prm.L-2, func(w []int) {
+			r.ActHook = hook
+			o := r.Run(w)
+			r.ActHook = nil
+			st.Evaluations++
+			st.Add("runs_with_recoverLookahead", 1)
+			switch {
+			case o.Panic != "":
+				x.report("C09", "parser-panic-with-recoverLookahead", w, "with @error actions calling recoverLookahead(last token): "+o.Panic, "")
+			case o.Hang != "":
+				// Re-injecting a token in every error action can loop by the user's own doing
+				// (the same token is rejected, recovered and re-injected again); counted, not reported.
+				st.Add("user_induced_loops_with_recoverLookahead", 1)
+			case o.Incon:
+				st.Inconcl++
+			}
+		})
+	}
 	st.States += int64(len(r.Configs))
 	st.Transitions += r.Steps
 	return x.out
